@@ -547,11 +547,13 @@ def swr_json_oracle(recurse, natural, sel, inp, out):
 
 def run_swr_json(ctx, rng, n, oracle_bad):
     terms, meta = [], []
-    for _ in range(n):
-        args, recurse, natural, sel, recs = gen_swr_json_case(rng)
+    gen = [gen_swr_json_case(rng) for _ in range(n)]
+    texts = ["\n".join(jdump(r) for r in g[4]) + "\n" for g in gen]
+    from concurrent.futures import ThreadPoolExecutor
+    with ThreadPoolExecutor(4) as ex:       # process start-up dominates on a loaded machine
+        runs = list(ex.map(lambda gt: mlr_run(ctx, ["--ijson", "--ojson"] + gt[0][0], gt[1].encode(), timeout=120), zip(gen, texts)))
+    for (args, recurse, natural, sel, recs), text, (st, out, err) in zip(gen, texts, runs):
         ctx.dist("sort-within-records:" + " ".join(a for a in args[1:] if a.startswith("-")))
-        text = "\n".join(jdump(r) for r in recs) + "\n"
-        st, out, err = mlr_run(ctx, ["--ijson", "--ojson"] + args, text.encode(), timeout=30)
         ctx.count(("swr-json", tuple(args), text))
         base = {"argv": ["mlr", "--ijson", "--ojson"] + args, "input": [jdump(r) for r in recs], "observed": out.decode("latin1")[:2000]}
         try:
